@@ -15,6 +15,27 @@ pub fn step(ctx: &Ctx, w: &World, ev: &mut Ev) {
     for key in res.iter() {
         ev.violation("residue", &format!("{},{},{}", kind, key, if ctx.out.ok { "ok" } else { "err" }), json!({"key": key, "op": kind}));
     }
+    // a liquidator record kept anywhere - under another key, inside another record - shows as the liquidator's address
+    // turning up in the engine's storage: judged for liquidators the engine has no other reason to know (no position,
+    // no role, not whitelisted, not the liquidated trader)
+    if let (true, Op::Liquidate { trader, .. }) = (ctx.out.ok, &ctx.step.op) {
+        let me = w.resolve(&ctx.step.actor);
+        let known = ctx.post.pos.iter().any(|((_, t), _)| *t == me)
+            || ctx.pre.pos.iter().any(|((_, t), _)| *t == me)
+            || ctx.model.whitelist.contains(&me)
+            || me == w.resolve(trader)
+            || ctx.post.eng.as_ref().map(|e| e.owner == me || e.pauser == me).unwrap_or(false)
+            || me.len() < 5;
+        if !known {
+            let p = World::contract_prefix(&w.addrs.engine);
+            let needle = me.as_bytes();
+            let holds = |dump: &crate::world::Dump| dump.iter().filter(|(k, _)| k.starts_with(&p)).any(|(k, v)| v.windows(needle.len()).any(|x| x == needle) || k.windows(needle.len()).any(|x| x == needle));
+            ev.count("liquidator_identity_scan");
+            if holds(&ctx.post.dump) && !holds(&ctx.pre.dump) {
+                ev.violation("residue", &format!("{},liquidator identity kept,ok", kind), json!({"liquidator": me, "op": kind}));
+            }
+        }
+    }
     if !ctx.step.op.is_engine_user_op() {
         return;
     }
